@@ -248,9 +248,13 @@ def ds_equiv(a, b, check_attrs=True, check_dtype_kind=False):
         if d in a.coords:
             la = a[d].values.tolist()
             lb = b[d].values.tolist()
-            if len(set(map(repr, la))) != len(la):
+            def lk(v):      # labels are compared by value: 1 and 1.0 name the same coordinate
+                if isinstance(v, (bool, int, float)) and v == v:
+                    return "n:%r" % float(v)
+                return "o:%r" % (v,)
+            if len(set(map(lk, la))) != len(la):
                 return "duplicate labels along %s in first: %s" % (d, la)
-            if sorted(map(repr, la)) != sorted(map(repr, lb)):
+            if sorted(map(lk, la)) != sorted(map(lk, lb)):
                 return "labels of %s: %s vs %s" % (d, la, lb)
     try:
         b2 = b.reindex({d: a[d].values for d in a.dims if d in a.coords})
